@@ -57,6 +57,8 @@ structure Sc (σ : Type) where
   /-- ghost (not in the Go code): a Keyword lexeme has been reported more recently than any closing
       parenthesis — what the consumer's `currentDirective` depends on (Proofs/ScanSafe.lean) -/
   ph : Bool := false
+  /-- ghost: the largest end position of the lexemes reported so far (−1 before the first) -/
+  le : Int := -1
   deriving Repr
 
 inductive Fault where
@@ -270,9 +272,9 @@ def processEvent {σ} (s : Sc σ) (ev : Ev × Int) : Except Fault (Option Lexeme
     | [] => .error (.panic "eventStack.Pop: Reading from empty stack")
     | st :: rest =>
       if Ev.matches st.1 ev.1 then
-        .ok (some ⟨ev.1.toLexType, st.2, ev.2⟩, { s with evs := rest, ph := phAfter s.ph ev.1.toLexType })
+        .ok (some ⟨ev.1.toLexType, st.2, ev.2⟩, { s with evs := rest, ph := phAfter s.ph ev.1.toLexType, le := max s.le ev.2 })
       else .error (.err (.basic "Ending lexeme event does not match beginning event") s.cur)
-  else .ok (some ⟨ev.1.toLexType, ev.2, ev.2⟩, { s with ph := phAfter s.ph ev.1.toLexType })
+  else .ok (some ⟨ev.1.toLexType, ev.2, ev.2⟩, { s with ph := phAfter s.ph ev.1.toLexType, le := max s.le ev.2 })
 
 /-- the `for range s.finds` loop of Next: at most `n` queued events; stops at the first lexeme -/
 def drain {σ} : Nat → Sc σ → Except Fault (Option Lexeme × Sc σ)
